@@ -123,24 +123,7 @@ def concrete_check(item, args: dict) -> dict:
     return {"reproduced": True, "how": "post_false", "detail": f"returned {ret!r}", "ret": _jsonable(ret)}
 
 
-def _harness_side(e: BaseException) -> str:
-    """Non-empty when exception *e* (or a cause/context of it) is the harness's own model giving up:
-    a HarnessModelError, or an AttributeError on an object whose class is defined under /verif."""
-    seen = 0
-    cur: BaseException | None = e
-    while cur is not None and seen < 8:
-        if type(cur).__name__ == "HarnessModelError":
-            return f"HarnessModelError: {cur}"
-        if isinstance(cur, AttributeError):
-            obj = getattr(cur, "obj", None)
-            mod = getattr(type(obj), "__module__", "") if obj is not None else ""
-            if isinstance(obj, type):
-                mod = getattr(obj, "__module__", "")
-            if mod.split(".")[0] in ("harness", "engine"):
-                return f"harness fake lacks an attribute the code now uses: {cur}"
-        cur = cur.__cause__ or cur.__context__
-        seen += 1
-    return ""
+from engine.api import harness_side as _harness_side  # noqa: E402
 
 
 def real_replay(item, args: dict) -> dict:
